@@ -433,10 +433,14 @@ class Controller(object):
         # Make direction orthogonal
         Y = self.model.xpt_directions(include_kopt=False).T  # columns are the current set of directions
         Q, R = LA.qr(Y, mode='economic')  # columns of Q are orthonormal basis for current set of directions
+        dirns_random = dirns.copy()
         for k in range(Q.shape[1]):
             qk = Q[:, k]
             for j in range(dirns.shape[0]):
                 dirns[j, :] = dirns[j, :] - np.dot(dirns[j, :], qk) * qk
+        for j in range(dirns.shape[0]):
+            if not LA.norm(dirns[j, :]) > 1e-8 * LA.norm(dirns_random[j, :]):
+                dirns[j, :] = dirns_random[j, :]  # current directions already span the space: nothing orthogonal to them, keep the random direction
 
         # Evaluate the points
         for j in range(num_steps):
@@ -477,9 +481,12 @@ class Controller(object):
         # Make direction orthogonal
         Y = self.model.xpt_directions(include_kopt=False).T  # columns are the current set of directions
         Q, R = LA.qr(Y, mode='economic')  # columns of Q are orthonormal basis for current set of directions
+        dirn_random = dirn.copy()
         for k in range(Q.shape[1]):
             qk = Q[:, k]
             dirn = dirn - np.dot(dirn, qk) * qk
+        if not LA.norm(dirn) > 1e-8 * LA.norm(dirn_random):
+            dirn = dirn_random  # current directions already span the space: nothing orthogonal to them, keep the random direction
 
         return dirn * (step_length / LA.norm(dirn))
 
